@@ -243,7 +243,11 @@ def columns_task(task, ctx: Ctx):
                     for maxcol in maxcols:
                         check_columns(ctx, combo, div, minw, focus, maxcol, None, persistent=pc)
                         check_columns(ctx, combo, div, minw, focus, maxcol, 2)
-                # second walk over the reused object in descending order (cache keyed on maxcol only)
+                # same width asked again right after a focus move (the width cache is keyed on maxcol only)
+                for maxcol in maxcols:
+                    for focus in list(range(L)) + list(reversed(range(L))):
+                        check_columns(ctx, combo, div, minw, focus, maxcol, None, persistent=pc)
+                # another walk over the reused object in descending order
                 for focus in reversed(range(L)):
                     for maxcol in reversed(maxcols):
                         check_columns(ctx, combo, div, minw, focus, maxcol, None, persistent=pc)
